@@ -9,7 +9,17 @@ Part pairs(E3): every ordered pair of the 16 priorities (write, write, relinquis
           fill-all-16 histories per class: reaches the slots the BFS alphabet does not name.
 Part min  (E2): binary output / binary value with (minimum on, minimum off) in {0,2,3}^2 under the virtual clock,
           alphabet extended with "advance 1 s"; slot 6 follows the minimum on/off rule of the reference.
+
+Refused writes are operations of the histories like any other: besides the refused priority / array-index forms,
+every class is written values that are not values of its datatype (bv.refs.cmdref.INVALID: undefined enumeration
+numbers and names, other datatypes, out-of-range numbers) at every priority of the set and in every state; the
+oracle is "refused, and nothing at all changed".  Writes of priority-array elements 1..16 (a value, Null) may be
+refused or taken as the command at that priority -- nothing else.
+Mode "wire+cov": the device offers ChangeOfValueServices as well and the histories contain the life cycle of a COV
+subscription of the commanded object (subscribe / renew with a lifetime or indefinitely, cancel, the lifetime
+running out while time advances).  The reference knows nothing of subscriptions: they must not influence commanding.
 """
+import re
 import time
 
 import bv  # noqa: F401
@@ -29,24 +39,39 @@ LEVEL = "model_checking"
 BUDGET = {"quick": 90.0, "thorough": 840.0}
 RULE = ("cmd: BFS over all histories of {write value_i | relinquish} x priority in the tier's priority set (None = no "
         "priority) plus the refused forms (priority 0/17/255 with a value and with Null; priorityArray[0] := length, "
-        "priorityArray[0] := value, priorityArray[17] := value, priorityArray[17] := Null); a state is the canonical "
+        "priorityArray[0] := value, priorityArray[17] := value, priorityArray[17] := Null), plus writes of every invalid "
+        "value of the class (cmdref.INVALID: undefined enumeration number / name, wrong datatype, out of range) at every "
+        "priority of the set, plus priorityArray[k] := value (wire driver: and := Null) for every k of the set (either "
+        "refused without change or exactly the command at priority k); a state is the canonical "
         "snapshot of the real object (16 slots as (alternative,value), present value, relinquish default, all other "
         "property values, pending min-on/off timer as time-to-go); a case is distinct by (configuration, state, "
         "operation); failing transitions are not expanded.  Merged on purpose: the protocol stacks' own state (next "
         "invoke id, device info cache) is not part of the state -- every transaction completes before the next "
         "operation and the property is stated on the object.  pairs: all 16x16 ordered priority pairs x 2 value pairs "
         "and two fill-all histories.  min: same BFS with priorities {1,8,none}, both binary states, relinquish and "
-        "'advance 1 s' for every (min-on, min-off) in {0,2,3}^2")
+        "'advance 1 s' for every (min-on, min-off) in {0,2,3}^2, plus the invalid-value writes; mode wire+cov adds "
+        "SubscribeCOV(lifetime 2 s | indefinite, unconfirmed | confirmed as the tier says) and the cancellation to the "
+        "alphabet (lifetimes run out under 'advance 1 s'); there the state also carries the harness' account of the "
+        "subscription (never / active with time to live / ended) and the device's number of live subscriptions")
 ASSUMPTIONS = [
     "the *CmdObject classes are used through a register_object_type(vendor_id=999) subclass, as samples/CommandableMixin.py does",
     "objects are constructed with explicit presentValue = relinquishDefault (a consistent all-null initial state); "
     "binary objects with minimum times also get an explicit priorityArray",
     "values are three (binary: two) type-appropriate values per class incl. the type's zero/empty value, enumerations by name; "
-    "values outside these alphabets, wrong-typed values and writes of priorityArray elements 1..16 are not explored",
+    "invalid values are the two or three per class of bv.refs.cmdref.INVALID (direct driver: the bare Python value, wire "
+    "driver: the application-tagged value); enumerations are otherwise written by name; whole-array writes are not explored",
+    "a write of an invalid value, or of priority-array element 1..16, counts as refused in the direct driver when ANY "
+    "exception is raised (the statement does not say which), in the wire driver when answered with Error / Reject / Abort; "
+    "priority-array elements 1..16 are written as the value itself (direct) / as a BACnetPriorityValue (wire)",
+    "wire+cov: one subscriber process of one client, perfect network, the client acknowledges confirmed notifications; "
+    "what the notifications say is not checked here (only that subscriptions have no influence on commanding)",
     "commands at priority 6 are not issued in the minimum on/off part (slot 6 belongs to the mechanism there)",
     "time advances in whole seconds, minimum times in {0,2,3} s; single thread; virtual clock bound to bacpypes.task._time",
     "wire driver: perfect network (every frame delivered at once), unsegmented, one outstanding request",
-    "'refused' means: direct driver -- an ExecutionError is raised (what the service layer turns into a BACnet Error; any "
+    "the invalid-value writes of one state are issued one after the other in one execution (each checked on its own: "
+    "refused, canonical state as before it; a passing one leaves the state where it was, so the next starts from the same "
+    "state; after a failing one the rest is run from the state again); every other operation gets a fresh object",
+    "'refused' for the priority / array-index forms means: direct driver -- an ExecutionError is raised (what the service layer turns into a BACnet Error; any "
     "other exception type on a refused form is reported); wire driver -- the request is answered with an Error, Reject or "
     "Abort PDU and not with a SimpleAck; in both, the canonical state (all property values) is unchanged",
     "a transition that fails the oracle is reported and not expanded further, so 'closure' is closure of the non-failing part",
@@ -56,19 +81,28 @@ ASSUMPTIONS = [
 BOUNDS = {
     "quick": "cmd: priorities {1,6,8,16,none}, depth<=6 (closure), direct for all 20 classes, wire for 3 classes "
              "(analog value, binary output, character string value); pairs: direct, all 20 classes; "
-             "min: binary output + binary value direct, depth<=9, 9 (on,off) configurations each",
+             "min: binary output + binary value direct, depth<=9, 9 (on,off) configurations each; wire+cov (priorities {1,8}, "
+             "subscribe 2 s unconfirmed, cancel) for binary output with (on,off) in {(2,3),(0,2)} and binary value with "
+             "{(2,3),(3,0)}, depth<=12",
     "thorough": "cmd: priorities {1,6,8,16,none} wire for all 20 classes; priorities {1,2,6,8,16,none} direct for all 20 "
                 "classes and wire for analog value + binary output, depth<=7 (closure); pairs: direct + wire, all 20 classes; "
-                "min: binary output + binary value, direct and wire, depth<=14 (closure), 9 configurations each",
+                "min: binary output + binary value, direct and wire, depth<=14 (closure), 9 configurations each; "
+                "wire+cov (priorities {1,8}; subscribe 2 s / indefinite unconfirmed, 2 s confirmed, cancel) for both, 9 configurations "
+                "each, depth<=16; cmd wire+cov (priorities {1,8,none}, same subscription alphabet) for binary value, "
+                "multi-state value, date value",
 }
 
 PRIOS_STD = (1, 6, 8, 16, None)
 PRIOS_EXT = (1, 2, 6, 8, 16, None)
 PRIOS_MIN = (1, 8, None)
+PRIOS_COV = (1, 8)              # quick tier, wire+cov: one priority above and one below the hold slot 6
+COV_QUICK = (("cov", "sub", 2, False), ("cov", "cancel"))
+COV_FULL = (("cov", "sub", 2, False), ("cov", "sub", 0, False), ("cov", "sub", 2, True), ("cov", "cancel"))
 QUICK_WIRE = ("AnalogValueCmdObject", "BinaryOutputCmdObject", "CharacterStringValueCmdObject")
 CLASS_INFO = dict((n, (c, d)) for (n, c, d) in cmdref.CLASSES)
 
 # a configuration is a plain tuple: (part, class name, mode, priority set, min_on, min_off)
+# mode: "direct" | "wire" | "wire+cov" (quick subscription alphabet) | "wire+cov*" (full subscription alphabet)
 
 
 def cfg_label(cfg):
@@ -80,8 +114,10 @@ def cfg_label(cfg):
 
 
 def alphabet(cfg):
+    """Valid commands first, then the refused forms, then the invalid values, then subscription events."""
     part, name, mode, prios, mon, moff = cfg
-    nvals = len(cmdref.DOMAINS[CLASS_INFO[name][1]]["values"])
+    domain = CLASS_INFO[name][1]
+    nvals = len(cmdref.DOMAINS[domain]["values"])
     ops = []
     for p in prios:
         for vi in range(nvals):
@@ -89,12 +125,34 @@ def alphabet(cfg):
         ops.append(("r", p))
     if part == "min":
         ops.append(("adv",))
-        return ops
-    for p in (0, 17, 255):
-        ops.append(("w", p, 0))
-        ops.append(("r", p))
-    ops += [("a", 0, "len"), ("a", 0, "val"), ("a", 17, "val"), ("a", 17, "null")]
+    else:
+        for p in (0, 17, 255):
+            ops.append(("w", p, 0))
+            ops.append(("r", p))
+        ops += [("a", 0, "len"), ("a", 0, "val"), ("a", 17, "val"), ("a", 17, "null")]
+        for p in prios:
+            if p is not None:
+                ops.append(("a", p, "val"))
+                if mode != "direct":            # direct: the same statements as a relinquish at p, not repeated
+                    ops.append(("a", p, "null"))
+    for p in prios:
+        for j in range(len(cmdref.INVALID[domain])):
+            ops.append(("x", p, j))
+    if mode == "wire+cov":
+        ops += list(COV_QUICK)
+    elif mode == "wire+cov*":
+        ops += list(COV_FULL)
     return ops
+
+
+def in_range(op):
+    """array-element write that addresses one of the 16 slots"""
+    return op[0] == "a" and isinstance(op[1], int) and 1 <= op[1] <= 16
+
+
+def strict_form(op):
+    """refused forms for which the direct driver must raise an ExecutionError (bad priority, array index 0 / > 16)"""
+    return op[0] in ("w", "r") or (op[0] == "a" and not in_range(op))
 
 
 def op_kind(op):
@@ -104,14 +162,22 @@ def op_kind(op):
         return "relinquish"
     if op[0] == "a":
         return "array-element-write"
+    if op[0] == "x":
+        return "invalid-value-write"
+    if op[0] == "cov":
+        return "cov-subscribe" if op[1] == "sub" else "cov-cancel"
     return "advance"
 
 
-def op_form(op):
+def op_form(op, domain=None):
     if op[0] in ("w", "r"):
         return "priority-%s" % (op[1],)
     if op[0] == "a":
-        return "array-index-%s" % (op[1],)
+        return "array-index-in-1-to-16" if in_range(op) else "array-index-%s" % (op[1],)
+    if op[0] == "x":
+        return cmdref.INVALID[domain][op[2]][0] if domain else "invalid-value"
+    if op[0] == "cov":
+        return "cov"
     return "advance"
 
 
@@ -127,23 +193,27 @@ class Run(object):
     def __init__(self, cfg):
         part, name, mode, prios, mon, moff = cfg
         self.cfg = cfg
-        self.mode = mode
+        self.cov = mode.startswith("wire+cov")
+        self.mode = "wire" if self.cov else mode            # the driver: "direct" | "wire"
         self.choice, self.domain = CLASS_INFO[name]
         dom = cmdref.DOMAINS[self.domain]
         self.values = dom["values"]
+        self.invalid = cmdref.INVALID[self.domain]
         vclock.reset(0.0)
         try:
             if part == "min":
-                self.obj = cs.make_object(name, self.domain, min_on=mon, min_off=moff, explicit_array=True)
+                self.obj = cs.make_object(name, self.domain, min_on=mon, min_off=moff, explicit_array=True,
+                                          status_flags=self.cov)
             else:
-                self.obj = cs.make_object(name, self.domain)
+                self.obj = cs.make_object(name, self.domain, status_flags=self.cov)
         except Exception as err:
             raise ConstructError("%s: %s" % (type(err).__name__, str(err)[:120]))
         self.ref = cmdref.CmdRef(dom["default"], min_on=mon or 0, min_off=moff or 0)
+        self.book = cmdref.SubscriptionBook() if self.cov else None
         self.oid = self.obj.objectIdentifier
         self.pair = None
-        if mode == "wire":
-            self.pair = cs.WirePair()
+        if self.mode == "wire":
+            self.pair = cs.WirePair(cov=self.cov)
             self.pair.add(self.obj)
 
     # -- applying one operation
@@ -154,12 +224,29 @@ class Run(object):
             elif op[0] == "r":
                 self.ref.command(NULL, priority=op[1])
             elif op[0] == "a":
+                if in_range(op):
+                    return "either"                             # settled by settle_either once the answer is known
                 self.ref.write_array_element(op[1], None)      # index 0 / 17: refused whatever the value
+            elif op[0] == "x":
+                self.ref.command_invalid(self.invalid[op[2]][0], priority=op[1])
+            elif op[0] == "cov":
+                if op[1] == "sub":                              # the reference of commanding is not told
+                    self.book.subscribe(op[2], op[3])
+                else:
+                    self.book.cancel()
             elif op[0] == "adv":
                 self.ref.advance(1)
+                if self.book is not None:
+                    self.book.advance(1)
             return "accepted"
         except cmdref.Refused:
             return "refused"
+
+    def settle_either(self, op, accepted):
+        """priorityArray[k] := value / Null, k in 1..16: the reference follows the answer of the device"""
+        value = self.values[0] if op[2] == "val" else NULL
+        self.ref.optional_array_element(op[1], value, accepted)
+        return "accepted" if accepted else "refused"
 
     def apply_real(self, op):
         """-> ('accepted',) | ('refused', how...) | ('broken', what...)"""
@@ -172,6 +259,8 @@ class Run(object):
                     self.obj.WriteProperty("presentValue", cs.to_py(self.domain, self.values[op[2]]), priority=op[1])
                 elif op[0] == "r":
                     self.obj.WriteProperty("presentValue", (), priority=op[1])
+                elif op[0] == "x":
+                    self.obj.WriteProperty("presentValue", cs.invalid_py(self.invalid[op[2]][1]), priority=op[1])
                 else:
                     val = {"len": 5, "val": cs.to_py(self.domain, self.values[0]), "null": ()}[op[2]]
                     self.obj.WriteProperty("priorityArray", val, arrayIndex=op[1])
@@ -185,6 +274,18 @@ class Run(object):
             res = self.pair.write(self.oid, "presentValue", cs.to_encodable(self.domain, self.values[op[2]]), priority=op[1])
         elif op[0] == "r":
             res = self.pair.write(self.oid, "presentValue", cs.to_encodable(self.domain, NULL), priority=op[1])
+        elif op[0] == "x":
+            res = self.pair.write(self.oid, "presentValue", cs.invalid_encodable(self.invalid[op[2]][1]), priority=op[1])
+        elif op[0] == "cov":
+            if op[1] == "sub":
+                res = self.pair.subscribe(self.oid, lifetime=op[2], confirmed=op[3])
+            else:
+                res = self.pair.cancel(self.oid)
+            if res[0] != "ack":
+                raise HarnessError("C17: the device does not acknowledge %r for %r: %r" % (op, self.oid, res))
+        elif in_range(op):
+            enc = cs.to_priority_value(self.domain, self.choice, self.values[0] if op[2] == "val" else NULL)
+            res = self.pair.write(self.oid, "priorityArray", enc, array_index=op[1])
         else:
             enc = {"len": Unsigned(5), "val": cs.to_encodable(self.domain, self.values[0]),
                    "null": cs.to_encodable(self.domain, NULL)}[op[2]]
@@ -247,6 +348,8 @@ class Run(object):
         pend = None
         if task is not None and task.isScheduled:
             pend = round(task.taskTime - vclock.clock.now, 6)
+        if self.cov:
+            return (view, pend, cs.other_properties(self.obj), self.book.status(), self.pair.live_subscriptions())
         return (view, pend, cs.other_properties(self.obj))
 
 
@@ -259,7 +362,7 @@ def compare(view, ref, op, part):
         return ("slots:array-not-readable", {"got": slots})
     for i, s in enumerate(slots):
         if isinstance(s, tuple) and s and isinstance(s[0], str) and s[0].startswith("?"):
-            return ("slot:malformed:%s" % s[0][1:], {"slot": i + 1, "got": s})
+            return ("slot:malformed:%s" % (s[0][1:] or "not-a-value-of-the-datatype"), {"slot": i + 1, "got": s})
     if slots != rslots:
         diff = [(i + 1, slots[i], rslots[i]) for i in range(16) if slots[i] != rslots[i]]
         detail = {"slots (index, got, expected)": diff}
@@ -284,8 +387,26 @@ def compare(view, ref, op, part):
     return None
 
 
-def execute(cfg, hist, check_from=0):
-    """Replay `hist` on fresh real objects and on the reference.  From step `check_from` on, the direct view is
+def execute(cfg, hist, check_from=0, labels=None):
+    """_execute, and for a failing history that contains subscription events the differential diagnosis: does the
+    same history WITHOUT them (same commands, same passage of time) pass?  Then the subscriptions are the cause."""
+    res = _execute(cfg, hist, check_from, labels)
+    bad, step = res[0], res[1]
+    if bad is not None and step is not None and step >= 0 and any(op[0] == "cov" for op in hist[:step + 1]):
+        plain = tuple(op for op in hist[:step + 1] if op[0] != "cov")
+        if _execute(cfg, plain, 0)[0] is None:
+            if bad[0] == "minonoff:on-off-times-swapped":       # refuted: the same commands pass without the events
+                bad = (bad[1]["first"], bad[1]["detail"])
+            bad = ("cov:subscription-events-change-commanding:%s" % bad[0],
+                   {"mismatch": bad[1], "note": "the same history without the subscribe / cancel events passes",
+                    "without": plain})
+            res = (bad,) + tuple(res[1:])
+    return res
+
+
+def _execute(cfg, hist, check_from=0, labels=None):
+    """Replay `hist` on fresh real objects and on the reference.  `labels` (a list) receives the outcome label of
+    every checked step.  From step `check_from` on, the direct view is
     checked after every step (the BFS passes len(hist)-1: the prefix is the history by which the parent state was
     first reached and was checked then); the wire view (wire mode) is checked after the last step.
     -> (bad | None, failing step | None, canon before last op, canon after, observed outcome label)"""
@@ -303,6 +424,8 @@ def execute(cfg, hist, check_from=0):
     for step, op in enumerate(hist):
         want = run.apply_ref(op)
         got = run.apply_real(op)
+        if want == "either":
+            want = run.settle_either(op, got[0] == "accepted")
         if step < check_from - 1:
             continue                    # unobserved prefix
         before, before_view = canon, view
@@ -311,20 +434,41 @@ def execute(cfg, hist, check_from=0):
         if step < check_from:
             continue                    # the observation before the first checked step
         label = "%s:%s:%s" % (op_kind(op), want, ":".join(str(x) for x in got[:4]))
+        if op[0] == "x":
+            how = got[:4] if (run.mode == "wire" or got[1:2] == ("ExecutionError",)) else got[:2]
+            label = "%s:%s:%s:%s" % (op_kind(op), want, ":".join(str(x) for x in how), op_form(op, run.domain))
+        elif in_range(op):
+            label = "%s:in-1-to-16" % label
+        elif op[0] == "cov" or (op[0] == "adv" and run.cov):
+            label = "%s:subscription-%s:live-%d" % (label, canon[3][0] if isinstance(canon[3], tuple) else canon[3], canon[4])
+        if labels is not None:
+            labels.append(label)
         if got[0] == "broken":
             return ("wire:%s-gets-no-proper-answer:%s" % (op_kind(op), got[1]), {"op": op, "got": got}), step, before, canon, label
         if want == "refused" and got[0] == "accepted":
-            return ("refusal:%s-%s-accepted" % (op_kind(op), op_form(op)),
+            if op[0] == "x":
+                stored = addressed_slot_only(op, before, canon)
+                return ("invalid-value:%s:%s" % ("acknowledged-and-put-into-the-addressed-slot" if stored else "acknowledged",
+                                                 op_form(op, run.domain)),
+                        {"op": op, "changed": what_changed(before, canon), "before": before_view, "after": view}), \
+                    step, before, canon, label
+            return ("refusal:%s-%s-accepted" % (op_kind(op), op_form(op, run.domain)),
                     {"op": op, "before": before_view, "after": view}), step, before, canon, label
         if want == "accepted" and got[0] != "accepted":
             return ("command:valid-%s-refused:%s" % (op_kind(op), ":".join(str(x) for x in got[1:4])),
                     {"op": op, "got": got}), step, before, canon, label
-        if want == "refused" and run.mode == "direct" and got[1] != "ExecutionError":
+        if want == "refused" and run.mode == "direct" and got[1] != "ExecutionError" and strict_form(op):
             return ("refusal:%s-%s-raises-%s-instead-of-refusing-with-an-execution-error" % (op_kind(op), op_form(op), got[1]),
                     {"op": op, "got": got}), step, before, canon, label
+        if want == "refused" and canon != before and (op[0] == "x" or in_range(op)) and addressed_slot_only(op, before, canon):
+            sig = "invalid-value:refused-but-addressed-slot-changed:%s" % op_form(op, run.domain) if op[0] == "x" \
+                else "array-element-in-1-to-16:refused-but-addressed-slot-changed"
+            return (sig, {"op": op, "answer": got, "changed": what_changed(before, canon),
+                          "before": before, "after": canon}), step, before, canon, label
         if want == "refused" and canon != before:
-            return ("refusal:state-changed-by-refused-%s-%s" % (op_kind(op), op_form(op)),
-                    {"op": op, "before": before, "after": canon}), step, before, canon, label
+            return ("refusal:state-changed-by-refused-%s-%s" % (op_kind(op), op_form(op, run.domain)),
+                    {"op": op, "answer": got, "changed": what_changed(before, canon),
+                     "before": before, "after": canon}), step, before, canon, label
         bad = compare(view, run.ref, op, part)
         if bad is None and length != 16:
             bad = ("array:length-not-16", {"got": length})
@@ -353,6 +497,34 @@ def execute(cfg, hist, check_from=0):
         if run.pair.wire.errors:
             return ("wire:exception-while-delivering", {"errors": run.pair.wire.errors[:3]}), step, before, canon, label
     return None, None, before, canon, label
+
+
+def addressed_slot_only(op, before, after):
+    """the two canonical states differ in the slot the operation addresses and in nothing else"""
+    k = op[1] if op[1] is not None else 16
+    (bs, bpv, brd), (as_, apv, ard) = before[0], after[0]
+    if not (isinstance(bs, tuple) and isinstance(as_, tuple) and len(bs) == len(as_) == 16 and 1 <= k <= 16):
+        return False
+    return bs[k - 1] != as_[k - 1] and all(bs[i] == as_[i] for i in range(16) if i != k - 1) \
+        and (bpv, brd) == (apv, ard) and tuple(before[1:]) == tuple(after[1:])
+
+
+def what_changed(before, after):
+    """human-readable difference of two canonical states (failing cases only)"""
+    out = []
+    (bs, bpv, brd), (as_, apv, ard) = before[0], after[0]
+    if isinstance(bs, tuple) and isinstance(as_, tuple) and len(bs) == len(as_) == 16:
+        out += ["slot %d: %r -> %r" % (i + 1, bs[i], as_[i]) for i in range(16) if bs[i] != as_[i]]
+    elif bs != as_:
+        out.append("slots: %r -> %r" % (bs, as_))
+    if bpv != apv:
+        out.append("present value: %r -> %r" % (bpv, apv))
+    if brd != ard:
+        out.append("relinquish default: %r -> %r" % (brd, ard))
+    for i, n in ((1, "pending min on/off timer"), (2, "other properties"), (3, "subscription book"), (4, "live subscriptions")):
+        if i < len(before) and before[i] != after[i]:
+            out.append("%s: %r -> %r" % (n, before[i], after[i]))
+    return out
 
 
 def diagnose_min(cfg, hist, view, bad):
@@ -386,7 +558,7 @@ def diagnose_min(cfg, hist, view, bad):
 
 def note_swallowed(acc):
     for (name, msg) in vclock.swallowed:
-        acc.swallowed["%s: %s" % (name, msg[:90])] += 1
+        acc.swallowed["%s: %s" % (name, re.sub(r" at 0x[0-9a-f]+", "", msg)[:90])] += 1
 
 
 def expand(item, deadline):
@@ -397,7 +569,10 @@ def expand(item, deadline):
         if time.time() > deadline:
             acc.cap("deadline inside frontier expansion (%s)" % cfg[0])
             break
-        for op in alphabet(cfg):
+        ops = alphabet(cfg)
+        for op in ops:
+            if op[0] == "x":
+                continue
             h2 = hist + (op,)
             bad, step, before, canon, label = execute(cfg, h2, check_from=len(h2) - 1)
             note_swallowed(acc)
@@ -412,16 +587,46 @@ def expand(item, deadline):
             acc.traces += 1
             acc.case((cfg, h64(before), op))
             acc.outcome("%s:%s" % (cfg[2], label))
+            if op[0] == "cov" or (op[0] == "adv" and cfg[2].startswith("wire+cov")):
+                acc.add_info("subscription events %s" % label, 1)
             if bad is not None:
                 acc.fail(bad[0], {"configuration": cfg_label(cfg), "history": h2, "mismatch": bad[1]},
                          {"cfg": cfg, "hist": h2})
                 continue
             nxt.append((cfg, h64((cfg, canon)), h2))
+        # the invalid-value writes of this state, one after the other in ONE execution: each is checked on its own
+        # (refused, canonical state as before it), and since a passing one leaves the state where it was, the next
+        # starts from the same state -- the history `hist + (x1, .., xk)` is one of the space.  A failing one ends
+        # the execution; the rest is run from the state again.
+        rest = tuple(op for op in ops if op[0] == "x")
+        while rest:
+            labels = []
+            h2 = hist + rest
+            bad, step, before, canon, label = execute(cfg, h2, check_from=len(hist), labels=labels)
+            note_swallowed(acc)
+            if bad is not None and step == -1:
+                acc.fail("init:fresh-object-not-in-initial-state", {"configuration": cfg_label(cfg), "mismatch": bad},
+                         {"cfg": cfg, "hist": h2})
+                break
+            if h64((cfg, before)) != parent:
+                raise HarnessError("C17: replaying %r %r does not lead to the state it led to when first explored"
+                                   % (cfg, hist))
+            done = len(rest) if bad is None else step - len(hist) + 1
+            acc.traces += 1
+            for i in range(done):
+                acc.transitions += 1
+                acc.case((cfg, h64(before), rest[i]))
+                acc.outcome("%s:%s" % (cfg[2], labels[i]))
+            if bad is not None:
+                acc.fail(bad[0], {"configuration": cfg_label(cfg), "history": h2[:step + 1], "mismatch": bad[1]},
+                         {"cfg": cfg, "hist": h2[:step + 1]})
+            rest = rest[done:]
     acc.info["next"] = nxt
     return acc
 
 
 def bfs(acc, cfgs, depth_cap, deadline, label):
+    started = time.time()
     seen = {}
     frontier = []
     live = []
@@ -473,6 +678,7 @@ def bfs(acc, cfgs, depth_cap, deadline, label):
         acc.info["%s %s" % (label, cfg_label(cfg))] = "states=%d depth=%d %s" % (
             len(seen[cfg]), depth_of[cfg], "open" if (cfg in open_cfgs or truncated) else "closed")
     closed = (not frontier) and not truncated
+    acc.info["%s wall_s" % label] = round(time.time() - started, 1)
     acc.info["%s closed" % label] = closed
     acc.closed = closed if acc.closed is None else (acc.closed and closed)
     if frontier:
@@ -560,6 +766,14 @@ def run(tier, seed, deadline):
     cfg = ("min", "BinaryOutputCmdObject", "direct", PRIOS_MIN, 2, 2)
     if repr(execute(cfg, mprobe)) != repr(execute(cfg, mprobe)):
         raise HarnessError("C17 replay of one minimum on/off history diverged")
+    cprobe = (("cov", "sub", 2, False), ("w", 8, 0), ("adv",), ("x", 1, 0), ("adv",), ("r", 8), ("cov", "sub", 0, True),
+              ("w", None, 0), ("cov", "cancel"), ("adv",), ("adv",), ("adv",), ("r", None))
+    cfg = ("min", "BinaryValueCmdObject", "wire+cov*", PRIOS_MIN, 2, 3)
+    a = execute(cfg, cprobe)
+    if repr(a) != repr(execute(cfg, cprobe)):
+        raise HarnessError("C17 replay of one history with subscription events diverged")
+    if a[0] is None and (a[3][3], a[3][4]) != ("ended", 0):
+        raise HarnessError("C17: subscription bookkeeping of the harness is off: %r" % (a[3][3:],))
 
     t0 = time.time()
     span = deadline - t0
@@ -570,17 +784,24 @@ def run(tier, seed, deadline):
         cmd_cfgs = [("cmd", n, "direct", PRIOS_STD, None, None) for n in names]
         cmd_cfgs += [("cmd", n, "wire", PRIOS_STD, None, None) for n in QUICK_WIRE]
         min_cfgs = [("min", n, "direct", PRIOS_MIN, a, b) for n in binaries for (a, b) in times]
+        cov_cfgs = [("min", n, "wire+cov", PRIOS_COV, a, b) for (n, a, b) in (("BinaryOutputCmdObject", 2, 3), ("BinaryOutputCmdObject", 0, 2),
+                                     ("BinaryValueCmdObject", 2, 3), ("BinaryValueCmdObject", 3, 0))]
         pair_modes = [(n, "direct") for n in names]
-        bfs(acc, min_cfgs, 9, t0 + 0.30 * span, "min")
+        bfs(acc, min_cfgs, 9, t0 + 0.15 * span, "min")
+        bfs(acc, cov_cfgs, 12, t0 + 0.35 * span, "min-cov")
         part_pairs(acc, pair_modes, t0 + 0.45 * span)
         bfs(acc, cmd_cfgs, 6, deadline, "cmd")
     else:
         min_cfgs = [("min", n, m, PRIOS_MIN, a, b) for n in binaries for m in ("direct", "wire") for (a, b) in times]
-        bfs(acc, min_cfgs, 14, t0 + 0.15 * span, "min")
+        bfs(acc, min_cfgs, 14, t0 + 0.12 * span, "min")
+        cov_cfgs = [("min", n, "wire+cov*", PRIOS_COV, a, b) for n in binaries for (a, b) in times]
+        bfs(acc, cov_cfgs, 16, t0 + 0.30 * span, "min-cov")
         pair_modes = [(n, m) for n in names for m in ("direct", "wire")]
-        part_pairs(acc, pair_modes, t0 + 0.25 * span)
+        part_pairs(acc, pair_modes, t0 + 0.36 * span)
         std = [("cmd", n, "wire", PRIOS_STD, None, None) for n in names]
-        bfs(acc, std, 6, t0 + 0.50 * span, "cmd")
+        std += [("cmd", n, "wire+cov*", PRIOS_MIN, None, None)
+                for n in ("BinaryValueCmdObject", "MultiStateValueCmdObject", "DateValueCmdObject")]
+        bfs(acc, std, 8, t0 + 0.60 * span, "cmd")
         ext = [("cmd", n, "direct", PRIOS_EXT, None, None) for n in names]
         ext += [("cmd", n, "wire", PRIOS_EXT, None, None) for n in ("AnalogValueCmdObject", "BinaryOutputCmdObject")]
         bfs(acc, ext, 7, deadline, "cmd-ext")
